@@ -1,7 +1,7 @@
 """C12 - output is a deterministic function of the input, not of threads or scheduling."""
 import os
 
-from .. import kernel, pipetrace
+from .. import kernel, pipetrace, repotests
 from ..common import Machinery, log, read_ndjson
 from ..inputs import REF, fasta, gff, mutate
 
@@ -148,6 +148,9 @@ def run(ctx):
     rejected = pipetrace.validate_traces(ctx, small)
     for r, why in rejected:
         ctx.add_failure("trace-rejected", r["vec"]["sig"], r["id"], {"vec": r["vec"], "why": why, "observed": r["obs"]})
+    # (1b) the pipeline runs performed by the repository's own tests, as traces (their assertions only compare outputs)
+    for r, why in repotests.validate(ctx):
+        ctx.add_failure("trace-rejected", "repository-test:" + r["vec"]["cmd"], r["id"], {"vec": r["vec"], "why": why, "events": r["obs"]["events"][:60]})
     # (2) outputs of all runs
     fails = kernel.validate_obs(ctx, "ObsC12", "ObsC12.cfg", obs, tag="pipe")[1]
     # (3) the binary
